@@ -11,7 +11,8 @@ let bump = 0x4000;
 export const calls = [];
 const base = {
   memory,
-  diplomat_alloc(size, align) { calls.push(["diplomat_alloc", [size, align]]); bump = (bump + align - 1) & ~(align - 1); const p = bump; bump += Math.max(size, 1); return p; },
+  // (nothing allocated by one case is used by a later one: the bump pointer wraps long before the 512 KiB memory ends)
+  diplomat_alloc(size, align) { calls.push(["diplomat_alloc", [size, align]]); if (bump > 0x60000) bump = 0x4000; bump = (bump + align - 1) & ~(align - 1); const p = bump; bump += Math.max(size, 1); return p; },
   diplomat_free(p, size, align) { calls.push(["diplomat_free", [p, size, align]]); },
 };
 export default new Proxy(base, { get(t, prop) { if (prop in t) return t[prop]; return (...args) => { calls.push([prop, args]);
@@ -88,7 +89,7 @@ class Val:
         if k == "opq":
             return "opq", [struct.pack("<I", OPQ_PTR)]
         if k == "slice":
-            return "[1, 2, 3]", [None, struct.pack("<I", 3)]
+            return "[1, 2, 3]", [PTRLEAF, struct.pack("<I", 3)]
         if k == "struct":
             parts, leaves = [], []
             for i, f in enumerate(STRUCTS[t["n"]]):
@@ -105,12 +106,20 @@ class Val:
         raise ValueError(k)
 
 
+PTRLEAF = "allocator-chosen pointer"     # a leaf whose value is unspecified but must stay a readable address in a read-back image
+PTR_OFFS = set()
+
+
 def image(case, leaves):
     """expected byte image (list of int or None) of the struct"""
     size = case["layout"]["size"]
     img = [None] * size
     assert len(leaves) == len(case["flat"]), (len(leaves), len(case["flat"]))
+    PTR_OFFS.clear()
     for lf, b in zip(case["flat"], leaves):
+        if b is PTRLEAF:
+            PTR_OFFS.update(range(lf["off"], lf["off"] + lf["bytes"]))
+            continue
         if b is None:
             continue
         assert len(b) == lf["bytes"], (lf, b)
@@ -238,7 +247,9 @@ def run_abi(rep, tier, cases, abi, wd, rng):
         expect.append({"img": img, "args": slot_expect(c["legacy"] if abi == "legacy" else c["spec"], img)})
         size = c["layout"]["size"]
         lit = "{%s}" % ", ".join(parts)
-        imghex = ",".join(str(b if b is not None else 0) for b in img)
+        # bytes the spec leaves unspecified (padding, the payload of an absent option) are GARBAGE in the image that is read back:
+        # a binding that looks at them (a flag read inside the payload, a value read from padding) shows
+        imghex = ",".join(str(b if b is not None else (0 if j in PTR_OFFS else 0xA5)) for j, b in enumerate(img))
         lines.append("try {")
         lines.append("  const v = %s; const out = {n: %d};" % (lit, n))
         lines.append("  { fill(0x1000, %d, 0xCD); const arena = new rt.CleanupArena(); W%d._fromSuppliedValue(rt.internalConstructor, v)._writeToArrayBuffer(wasm.memory.buffer, 0x1000, arena, anyMap); out.bytes = bytes(0x1000, %d); }" % (size + 16, n, size + 16))
@@ -379,10 +390,32 @@ def readback_expect(f, vg, img, c, i):
         return v
     if k == "enum":
         return "ffi:%d" % ENUMS[CUR_ENUM[0]][1]
+    if k == "opt":
+        # which arm was written: the flag is the last leaf of this field
+        fo = c["layout"]["offsets"][i]
+        nxt = c["layout"]["offsets"][i + 1] if i + 1 < len(c["fields"]) else c["layout"]["size"]
+        flag = max(lf["off"] for lf in c["flat"] if fo <= lf["off"] < nxt)
+        if img[flag] != 1:
+            return ("opt", False, None)
+        inner = f["t"]
+        if inner["k"] == "prim":
+            p = inner["p"]
+            raw = bytes(img[fo: fo + struct.calcsize(PRIM_FMT[p])])
+            v = struct.unpack(PRIM_FMT[p], raw)[0]
+            return ("opt", True, ("big:%d" % v) if p in ("i64", "u64") else (bool(v) if p == "bool" else v))
+        return ("opt", True, None)
     return None      # nested values are covered by the byte image and by their own single-field cases
 
 
 def same_value(got, exp):
+    if isinstance(exp, tuple):
+        # an optional field: null exactly when the None arm was written; a present primitive has its value (also 0 / false)
+        _, some, v = exp
+        if not some:
+            return got is None
+        if got is None:
+            return False
+        return True if v is None else same_value(got, v)
     if isinstance(exp, float):
         return isinstance(got, (int, float)) and abs(got - exp) < 1e-6
     return got == exp
